@@ -45,6 +45,9 @@ def run(tier, seed):
     rep = Report(PID, tier, seed, "proof")
     po = proof_obligations("WowVerif.Thm.C17", ["wowdrv"])
     add_proof_failures(rep, po)
+    po2 = proof_obligations("WowVerif.Thm.C17b")      # trace_accounts: the prescribed field list accounts for the whole encoding
+    add_proof_failures(rep, po2)
+    po = dict(po, theorems=dict(po["theorems"], **po2["theorems"]), obligations=po["obligations"] + po2["obligations"], discharged=po["discharged"] + po2["discharged"])
     rng = SplitMix64(seed)
     cov = None
     for label, base in ws_dirs(tier, rep):
